@@ -363,7 +363,36 @@ class Executor:
     def _merge_bools(self, results: list[Res]) -> list[Res]:
         return results
 
+    def _pure_ifexp(self, e, st):
+        rs = self.eval(e.test, st)
+        if len(rs) != 1 or rs[0].kind != "val" or rs[0].st is not st:
+            raise Unsupported("impure operand in a pure conditional expression")
+        vals = [rs[0].val]
+        c = self.truthy(vals[0], st)
+        for x, cond in ((e.body, c), (e.orelse, (not c) if isinstance(c, bool) else z3.Not(c))):
+            # each arm is evaluated under its guard (so `d[k] if k in d else k` cannot raise) in a scratch state
+            sb = st.fork()
+            if not isinstance(cond, bool):
+                sb.assume(cond)
+            elif not cond:
+                vals.append(None)
+                continue
+            rs = self.eval(x, sb)
+            if len(rs) != 1 or rs[0].kind != "val" or rs[0].st.heap != st.heap:
+                raise Unsupported("impure operand in a pure conditional expression")
+            vals.append(rs[0].val)
+        if isinstance(c, bool):
+            return [Res("val", vals[1] if c else vals[2], st)]
+        a, b = vals[1], vals[2]
+        if isinstance(a, VRef) or isinstance(b, VRef):
+            return [Res("val", VRef(z3.If(c, z_int(a), z_int(b)), a.cls if isinstance(a, VRef) else b.cls), st)]
+        if isinstance(a, (VBool, bool)) and isinstance(b, (VBool, bool)):
+            return [Res("val", lift_bool(z3.If(c, z_bool(a) if not isinstance(a, bool) else z3.BoolVal(a), z_bool(b) if not isinstance(b, bool) else z3.BoolVal(b))), st)]
+        return [Res("val", lift_int(z3.If(c, z_int(a), z_int(b))), st)]
+
     def e_IfExp(self, e, st):
+        if getattr(self, "pure_mode", False):
+            return self._pure_ifexp(e, st)
         out = []
         for r in self.eval(e.test, st):
             if r.kind == "raise":
